@@ -424,53 +424,47 @@ impl Tree {
 
     fn resolve_probe(&self, p: &Probe) -> Option<Item> {
         let m = p.module;
-        // scopes from the inside out: nested block (depth 1), function block (depth 0), module, global
-        let lookup = |name: &str, from_depth: usize| -> Option<Item> {
-            let mut d = from_depth as i32;
-            while d >= 0 {
-                // declarations of this block
-                if d == 0 {
-                    if let Some((n, v)) = &p.local {
-                        if n == name {
-                            return Some(Item::Local(*v));
-                        }
-                    }
-                }
-                // then this block's imports
-                for (bd, imp) in &p.block_imports {
-                    if *bd as i32 == d && imp.last().map(|s| s.as_str()) == Some(name) {
-                        // the import path's first segment is looked up from the same block outward
-                        let dd = d as usize;
-                        return self.resolve_path(m, imp, &|n| self.block_lookup_no_imports(p, n, dd));
-                    }
-                }
-                d -= 1;
-            }
-            self.module_lookup(m, name, 0)
-        };
         let from = if p.nested_use { 1 } else { 0 };
-        // every block import must itself resolve
+        // every block import must itself resolve; its first segment is looked up from its own
+        // block outward (the other imports of that block and of the enclosing blocks included)
         for (bd, imp) in &p.block_imports {
             let dd = *bd;
-            self.resolve_path(m, imp, &|n| self.block_lookup_no_imports(p, n, dd))?;
-            if *bd == 1 && !p.nested_use {
-                // import in the nested block while the use is outside: simply not visible
-            }
+            self.resolve_path(m, imp, &|n| self.block_lookup(p, n, dd, Some(imp), 8))?;
         }
+        // imports of a sibling / neighbouring nested block: they see the function block, not
+        // the block that holds the use
         for imp in p.sibling_imports.iter().chain(p.decoy.iter()) {
-            self.resolve_path(m, imp, &|n| self.block_lookup_no_imports(p, n, 0))?;
+            self.resolve_path(m, imp, &|n| self.block_lookup(p, n, 0, None, 8))?;
         }
-        self.resolve_path(m, &p.path, &|n| lookup(n, from))
+        self.resolve_path(m, &p.path, &|n| self.block_lookup(p, n, from, None, 8))
     }
 
-    /// lookup used for the first segment of a block import: locals, then outward to the module
-    fn block_lookup_no_imports(&self, p: &Probe, name: &str, _depth: usize) -> Option<Item> {
-        if let Some((n, v)) = &p.local {
-            if n == name {
-                return Some(Item::Local(*v));
-            }
+    /// scopes from the inside out: nested block (depth 1), function block (depth 0), module,
+    /// global; per block its declarations, then its imports. `skip` is the import whose own
+    /// path is being resolved (an import does not see itself).
+    fn block_lookup(&self, p: &Probe, name: &str, from_depth: usize, skip: Option<&Vec<String>>, fuel: u32) -> Option<Item> {
+        if fuel == 0 {
+            return None; // imports that only lead to each other
         }
-        self.module_lookup(p.module, name, 0)
+        let m = p.module;
+        let mut d = from_depth as i32;
+        while d >= 0 {
+            if d == 0 {
+                if let Some((n, v)) = &p.local {
+                    if n == name {
+                        return Some(Item::Local(*v));
+                    }
+                }
+            }
+            for (bd, imp) in &p.block_imports {
+                if *bd as i32 == d && Some(imp) != skip && imp.last().map(|s| s.as_str()) == Some(name) {
+                    let dd = d as usize;
+                    return self.resolve_path(m, imp, &|n| self.block_lookup(p, n, dd, Some(imp), fuel - 1));
+                }
+            }
+            d -= 1;
+        }
+        self.module_lookup(m, name, 0)
     }
 
     fn module_path(&self, m: usize) -> Vec<String> {
